@@ -41,9 +41,58 @@ def extra(rng, quick):
     return cases
 
 
+def generator_leg(tier, seed):
+    """every generator kind as advanced by solve (hook H2): the probe draw + one draw per iteration must be steps of Batching.tla"""
+    from .. import core, tracecheck
+    from . import _dg
+
+    q = tier == "quick"
+    cfgs = []
+    k = 0
+    for (n, b) in ((4, 2), (5, 2), (3, 3)) if q else ((4, 2), (5, 2), (3, 3), (6, 4), (8, 2), (5, 1)):
+        for gk in ("ode", "statio", "nonstatio"):
+            k += 1
+            it = 3 * (-(-n // b)) + 1
+            base = dict(kind="solvegen", gkind=gk, n=n, b=b, iters=it, seed=100 * seed + k)
+            if gk == "ode":
+                cfgs.append(base)
+            elif gk == "statio":
+                cfgs.append(dict(base, dim=1, nb=2, bb=2))
+                cfgs.append(dict(base, dim=2, nb=4 * (n - 1 or 1), bb=min(b, n - 1 or 1)))
+            else:
+                cfgs.append(dict(base, dim=1, nb=None, bb=None, nt=n + 1, bt=b))
+                cfgs.append(dict(base, dim=2, nb=4 * n, bb=b, nt=n, bt=b, cart=False))
+    traces = core.run_drivers("harness.drv_datagen:run_case", cfgs)
+    crashed = [t for t in traces if "tb" in t]
+    if crashed:
+        raise core.MachineryError("driver crashed: " + crashed[0]["tb"])
+    hookless = [t for t in traces if t.get("exc", "").startswith("hook events")]
+    if hookless:
+        raise core.MachineryError("hook H2 events missing: " + hookless[0]["exc"])
+    live = [t for t in traces if not t.get("skipped")]
+    sc = core.Scratch("C07gen")
+    try:
+        slim = [{k: v for k, v in t.items() if k != "cfg"} for t in live]
+        rej, acc, res = tracecheck.validate("Trace_DataGen", _dg.TRACE_CFG % "C09", slim, sc, "trC07gen")
+        viol = []
+        for r in rej:
+            t = live[r["tid"]]
+            viol.append(dict(clause="SolveAdvancesGenerator_" + r["clause"], sig=dict(leg="generator", **_dg.sig_of(t["cfg"], "")),
+                             detail=f"event {r['ev']} {t.get('exc', '')}", driver="harness.drv_datagen:run_case", cfg=t["cfg"], record=t))
+        return viol, dict(solve_generator_traces=len(live), solve_generator_traces_accepted=acc, solve_generator_events=sum(len(t["ev"]) for t in live))
+    finally:
+        sc.cleanup()
+
+
+def both_legs(tier, seed):
+    v1, s1 = _contracts.leg(("solve",), 0)(tier, seed)
+    v2, s2 = generator_leg(tier, seed)
+    return v1 + v2, dict(s1, **s2)
+
+
 def run(tier, seed):
     return _solve.run(
-        "C07", tier, seed, select=select, extra_cases=extra, needs=["resumed", "non_decoded_optimizers", "with_aux"], extra_leg=_contracts.leg(("solve",), 0),
+        "C07", tier, seed, select=select, extra_cases=extra, needs=["resumed", "non_decoded_optimizers", "with_aux"], extra_leg=both_legs,
         rule="MC: Solve.tla (RunsExactlyN, HistoryIsReferenceLoop, HistoryLengths, Terminates); replay: scenarios without stop/fault from "
              "TLC's emission + driver families: epoch wrap (12 iterations), batch sizes dividing / not dividing / equal to n, parameter and "
              "observation generators (their batches decoded from the loss terms), tracked-parameter specs, sgd/adam/chained-schedule "
